@@ -4954,3 +4954,202 @@ func sharedNilGuardedParam(c *an.Ctx, rule, fnKey string, idx int, why string) {
 	}
 	c.Check(!bad, rule, key, pos, "every dereference is under a nil test", "parameter "+pa.Name()+" is dereferenced without a nil test, but "+why)
 }
+
+// sharedSendBufferIntact: one byte slice that is both the source of a send and
+// the destination of a receive must be filled again before it is sent a second
+// time: a receive that failed half-way has left a part of some other message
+// in it.  The rule summarises, for every function of the given packages, which
+// []byte parameters it sends (a Write of the slice or of a part of it), which
+// it receives into (Read, io.ReadFull, io.ReadAtLeast) and which it fills
+// (Pack*, Put*, copy, append), through callees of the same packages; then in
+// every function it looks for a receive into a slice followed, on some path
+// without a fill, by a send of the same slice.
+func sharedSendBufferIntact(c *an.Ctx, rule string, pkgPrefixes ...string) (examined int) {
+	const (
+		fSend = 1 << iota
+		fRecv
+		fFill
+	)
+	isBytes := func(t types.Type) bool {
+		s, ok := t.Underlying().(*types.Slice)
+		return ok && isBasicKind(s.Elem(), types.Uint8)
+	}
+	base := func(v ssa.Value) ssa.Value {
+		for {
+			switch x := v.(type) {
+			case *ssa.Slice:
+				if _, isArr := an.Deref(x.X.Type()).Underlying().(*types.Array); isArr {
+					return v
+				}
+				v = x.X
+			case *ssa.ChangeType:
+				v = x.X
+			default:
+				return v
+			}
+		}
+	}
+	var fns []*ssa.Function
+	for _, fn := range c.Prog.AllFns {
+		if !c.Prog.InRepo(fn) || c.Prog.IsTestFile(fn.Pos()) || !hasAnyPrefix(an.FnKey(fn), pkgPrefixes) {
+			continue
+		}
+		fns = append(fns, fn)
+	}
+	inSet := map[*ssa.Function]bool{}
+	for _, fn := range fns {
+		inSet[fn] = true
+	}
+	summ := map[*ssa.Function]map[int]int{}
+	// effect of one call on its []byte arguments: argument index -> flags
+	effects := func(call ssa.CallInstruction) map[int]int {
+		out := map[int]int{}
+		com := call.Common()
+		name := an.CalleeName(call)
+		short := name
+		if i := strings.LastIndexAny(short, ".)"); i >= 0 {
+			short = strings.TrimLeft(short[i:], ".)")
+		}
+		callee := an.StaticCallee(call)
+		for i, a := range com.Args {
+			if !isBytes(a.Type()) {
+				continue
+			}
+			switch {
+			case callee != nil && inSet[callee]:
+				pi := i
+				if s := summ[callee]; s != nil {
+					out[i] |= s[pi]
+				}
+			case strings.HasPrefix(short, "Write"):
+				out[i] |= fSend
+			case short == "ReadFull" || short == "ReadAtLeast" || strings.HasPrefix(short, "Read"):
+				out[i] |= fRecv
+			case strings.HasPrefix(short, "Pack") || strings.HasPrefix(short, "Put") || strings.HasPrefix(short, "Append"):
+				out[i] |= fFill
+			}
+		}
+		return out
+	}
+	for changed := true; changed; {
+		changed = false
+		for _, fn := range fns {
+			params := map[ssa.Value]int{}
+			for i, p := range fn.Params {
+				if isBytes(p.Type()) {
+					params[p] = i
+				}
+			}
+			if len(params) == 0 {
+				continue
+			}
+			for _, call := range an.Calls(fn) {
+				for ai, fl := range effects(call) {
+					if pi, ok := params[base(call.Common().Args[ai])]; ok && fl != 0 {
+						if summ[fn] == nil {
+							summ[fn] = map[int]int{}
+						}
+						if summ[fn][pi]|fl != summ[fn][pi] {
+							summ[fn][pi] |= fl
+							changed = true
+						}
+					}
+				}
+			}
+		}
+	}
+	reachNoFill := func(from, to ssa.Instruction, fills map[ssa.Instruction]bool) bool {
+		blk, i := an.After(from)
+		seen := map[*ssa.BasicBlock]bool{}
+		type st struct {
+			b *ssa.BasicBlock
+			i int
+		}
+		work := []st{{blk, i}}
+		for len(work) > 0 {
+			s := work[len(work)-1]
+			work = work[:len(work)-1]
+			blocked := false
+			for j := s.i; j < len(s.b.Instrs); j++ {
+				if fills[s.b.Instrs[j]] {
+					blocked = true
+					break
+				}
+				if s.b.Instrs[j] == to {
+					return true
+				}
+			}
+			if blocked {
+				continue
+			}
+			for _, succ := range s.b.Succs {
+				if !seen[succ] {
+					seen[succ] = true
+					work = append(work, st{succ, 0})
+				}
+			}
+		}
+		return false
+	}
+	for _, fn := range fns {
+		type ev struct {
+			in ssa.Instruction
+			fl int
+		}
+		byBuf := map[ssa.Value][]ev{}
+		for _, call := range an.Calls(fn) {
+			for ai, fl := range effects(call) {
+				if fl != 0 {
+					b := base(call.Common().Args[ai])
+					byBuf[b] = append(byBuf[b], ev{call, fl})
+				}
+			}
+		}
+		// a built-in copy into the slice is a fill as well
+		an.Instrs(fn, func(in ssa.Instruction) {
+			if call, ok := in.(*ssa.Call); ok {
+				if b, ok := call.Call.Value.(*ssa.Builtin); ok && b.Name() == "copy" && len(call.Call.Args) == 2 {
+					byBuf[base(call.Call.Args[0])] = append(byBuf[base(call.Call.Args[0])], ev{call, fFill})
+				}
+			}
+		})
+		for buf, evs := range byBuf {
+			hasSend, hasRecv := false, false
+			fills := map[ssa.Instruction]bool{}
+			for _, e := range evs {
+				hasSend = hasSend || e.fl&fSend != 0
+				hasRecv = hasRecv || e.fl&fRecv != 0
+				if e.fl&fFill != 0 && e.fl&(fSend|fRecv) == 0 {
+					fills[e.in] = true
+				}
+			}
+			if !hasSend || !hasRecv {
+				continue
+			}
+			examined++
+			c.Analysed(an.FnKey(fn))
+			bufName := "of type " + buf.Type().String()
+			if p, ok := buf.(*ssa.Parameter); ok {
+				bufName = p.Name()
+			}
+			key := fmt.Sprintf("%s: the buffer %s is filled again before it is sent after a receive", an.FnKey(fn), bufName)
+			bad := ""
+			for _, r := range evs {
+				if r.fl&fRecv == 0 {
+					continue
+				}
+				for _, s := range evs {
+					if s.fl&fSend == 0 {
+						continue
+					}
+					if reachNoFill(r.in, s.in, fills) {
+						bad = fmt.Sprintf("%s receives into the buffer and %s then sends it with no fill in between (a failed receive leaves a partial message in the bytes that are sent)",
+							c.Prog.Pos(r.in.Pos()), c.Prog.Pos(s.in.Pos()))
+					}
+				}
+			}
+			c.Check(bad == "", rule, key, fn.Pos(), fmt.Sprintf("%d uses of the buffer; no send is reachable from a receive without a fill", len(evs)), bad)
+		}
+	}
+	return examined
+}
